@@ -280,7 +280,8 @@ class Endpoint:
                     return self._reply(400, "text/plain", b"request is not UTF-8")
                 # parameters / headers this endpoint does not know are ignored, but logged
                 # every protocol / extra parameter except the request text itself, decoded (URL first, then form)
-                entry["params"] = [(k, v) for k, vs in q.items() if k not in ("query", "update") for v in vs]
+                entry["params"] = [(k, v) for k, vs in q.items() for v in vs]
+                entry["text_key"] = None      # the parameter the text was taken from (None: the body itself)
                 entry["x_param"] = q.get("x-extra", [])
                 entry["x_header"] = self.headers.get("X-Extra")
                 entry["auth"] = self.headers.get("Authorization")
@@ -296,6 +297,7 @@ class Endpoint:
                         if path == "/query":
                             if text is None:
                                 text = (q.get("query") or [None])[0]
+                                entry["text_key"] = "query"
                             if text is None:
                                 return self._reply(400, "text/plain", b"no query")
                             entry["text"] = text
@@ -316,6 +318,7 @@ class Endpoint:
                                 return self._reply(405, "text/plain", b"update needs POST")
                             if text is None:
                                 text = (q.get("update") or [None])[0]
+                                entry["text_key"] = "update"
                             if text is None:
                                 return self._reply(400, "text/plain", b"no update")
                             entry["text"] = text
